@@ -1,5 +1,7 @@
 import Deb822Verif.Spec.RelGrammar
 /-! The relation lexer on a well-formed field: it produces exactly `FieldA.toks` (C10, stage 1). -/
+set_option linter.unusedSimpArgs false
+set_option linter.unusedVariables false
 namespace Deb822Verif.Rel
 open Deb822Verif Node RelSpec
 
@@ -296,7 +298,7 @@ theorem lex_items (is : List Item) (rest : Str) (hok : ∀ i ∈ is, i.ok = true
       rw [ih hok' hl']
 
 theorem Bracket.ok_iff (b : Bracket) : b.ok = true ↔
-    gapOk b.pre = true ∧ gapOk b.post = true ∧ b.items ≠ [] ∧ (∀ i ∈ b.items, i.ok = true)
+    gapOk b.pre = true ∧ gapOk b.post = true ∧ (∀ i ∈ b.items, i.ok = true)
       ∧ laterGapsOk b.items = true := by
   simp [Bracket.ok, and_assoc]
 
@@ -304,7 +306,7 @@ theorem lex_bracket (ok ck : Kind) (o c : Char) (b : Bracket) (rest : Str) (hb :
     (ho : punct o = some ok) (hc : punct c = some ck) (hcw : isWs c = false) (hci : isIdentChar c = false)
     (how : isWs o = false) :
     lex (b.str o c ++ rest) = b.toks ok ck o c ++ lex rest := by
-  obtain ⟨h1, h2, _, h4, h5⟩ := (Bracket.ok_iff b).1 hb
+  obtain ⟨h1, h2, h4, h5⟩ := (Bracket.ok_iff b).1 hb
   simp only [Bracket.str, Bracket.toks, Bracket.body, List.append_assoc, List.cons_append, List.nil_append]
   rw [lex_gap _ _ h1 (headFails_cons _ _ _ how), lex_punct o ok _ ho]
   have := lex_items b.items (gapStr b.post ++ c :: rest) h4 h5 (ni_gap _ _ h2 (headFails_cons _ _ _ hci))
